@@ -372,28 +372,55 @@ def rules(ctx):
             defs = assignments_to(fn.node, F)
             if not defs:
                 ctx.inst('R01.5', fn, gs, False, "penalty function %s is not defined in the function" % F)
-            for s, v in defs:
+            def check_site(host, hg, s, v, lp_):
                 facts = []
-                for t, pol, o in g.edge_dominators(s):
+                for t, pol, o in hg.edge_dominators(s):
                     facts += compare_atoms(t, pol)
                 if isinstance(v, tuple) and v[0] == 'def':
                     d = v[1]
                     rets = [r for r in ast.walk(d) if isinstance(r, ast.Return)]
-                    okf = len(rets) == 1 and src(rets[0].value) == lamp and \
-                        (lamp, 'is not', 'None') in facts and ('falsy', 'callable(%s)' % lamp) in facts
-                    ctx.inst('R01.5', fn, s, okf,
+                    okf = len(rets) == 1 and src(rets[0].value) == lp_ and \
+                        (lp_, 'is not', 'None') in facts and ('falsy', 'callable(%s)' % lp_) in facts
+                    ctx.inst('R01.5', host, s, okf,
                              "constant closure over lam for a non-callable weight" if okf else
-                             "local %s does not return `%s` under (lam is not None, not callable(lam))" % (F, lamp))
-                elif isinstance(v, ast.AST) and src(v) == lamp:
-                    okf = ('truthy', 'callable(%s)' % lamp) in facts
-                    ctx.inst('R01.5', fn, s, okf,
+                             "local %s does not return `%s` under (lam is not None, not callable(lam))" % (F, lp_))
+                elif isinstance(v, ast.AST) and src(v) == lp_:
+                    okf = ('truthy', 'callable(%s)' % lp_) in facts
+                    ctx.inst('R01.5', host, s, okf,
                              "callable lam used as given" if okf else "lam used as a function without callable(lam) guard")
                 elif isinstance(v, ast.AST) and src(v).endswith('default_lam'):
-                    okf = (lamp, 'is', 'None') in facts
-                    ctx.inst('R01.5', fn, s, okf,
+                    okf = (lp_, 'is', 'None') in facts
+                    ctx.inst('R01.5', host, s, okf,
                              "default penalty when lam is None" if okf else "default_lam selected without `lam is None` guard")
+                elif isinstance(v, ast.Call) and len(v.args) == 1 and is_name(v.args[0], lp_) and not v.keywords:
+                    # the selection lives in a helper that receives lam: decide it on the helper's returns
+                    try:
+                        tg = [t for t, r_, h in R.resolve_call(v, host, 'PUBO') if isinstance(t, FuncInfo)]
+                    except Exception:
+                        tg = []
+                    if len(tg) != 1 or len(tg[0].params) < 1:
+                        ctx.inst('R01.5', host, s, False, "penalty function bound to `%s`" % src(v))
+                        return
+                    h = tg[0]
+                    hp = h.params[-1]
+                    hg2 = cfg_of(h.node)
+                    nested = {n.name: n for n in h.node.body if isinstance(n, ast.FunctionDef)}
+                    rets = [r for r in hg2.stmts() if isinstance(r, ast.Return)]
+                    if not rets:
+                        ctx.inst('R01.5', h, 'return', False, "%s returns nothing" % h.qual)
+                    for r in rets:
+                        rv = r.value
+                        if isinstance(rv, ast.Name) and rv.id in nested:
+                            check_site(h, hg2, r, ('def', nested[rv.id]), hp)
+                        elif isinstance(rv, ast.Lambda):
+                            fake = ast.FunctionDef(name='<lambda>', args=rv.args, body=[ast.Return(value=rv.body)], decorator_list=[])
+                            check_site(h, hg2, r, ('def', fake), hp)
+                        else:
+                            check_site(h, hg2, r, rv, hp)
                 else:
-                    ctx.inst('R01.5', fn, s, False, "penalty function bound to `%s`" % (src(v) if isinstance(v, ast.AST) else v))
+                    ctx.inst('R01.5', host, s, False, "penalty function bound to `%s`" % (src(v) if isinstance(v, ast.AST) else v))
+            for s, v in defs:
+                check_site(fn, g, s, v, lamp)
     dl = P.func('PUBO.default_lam')
     vparam = dl.all_params[-1]
     rets = [r for r in walk_no_nested(strip_docstring(dl.node.body)) if isinstance(r, ast.Return)]
